@@ -1,5 +1,6 @@
 (* C08 — compile is all-or-nothing. *)
 From Lace Require Import Word Asm Cli CliProofs.
+From Lace Require Examples.
 Open Scope N_scope.
 
 (** For every source, destination, file system and behaviour of the operating system's
@@ -22,3 +23,7 @@ Theorem C08_failure_untouched : forall feat src dest f o d a n,
   assembles feat src = Err d a n -> compile_cmd feat src dest f o = (1, f).
 Proof. exact compile_failure_untouched. Qed.
 Print Assumptions C08_failure_untouched.
+
+(** Non-vacuity: a source that is rejected (the hypothesis of C08_failure_untouched). *)
+Example C08_nonvacuous : exists d a n, assembles false Examples.ex_src_bad = Err d a n.
+Proof. exact Examples.ex_rejected. Qed.
